@@ -263,7 +263,37 @@ def check_guard(ctx):
         ctx.check(okp, R4, f"{c.key}.__post_init__", "gates with free symbols are refused (power/exp need a numeric matrix)", f"{cname} no longer refuses gates with free symbols", pm or c)
 
 
+def check_dagger_semantics(ctx, rule: str):
+    """What `gate.dagger` means for every gate the library can build (shared with C08, whose circuit
+    inverse is reversed order + per-gate dagger): (a) Dagger.matrix is the conjugate transpose of the
+    wrapped matrix, (b) a MatrixFactoryGate is its own dagger only under its is_hermitian flag, else it
+    is wrapped in Dagger, (c) every built-in gate carrying that flag really equals its conjugate
+    transpose for all real parameters (exact normal-form comparison, see C02)."""
+    from .c02 import hermitian_flag_obligations
+
+    repo = ctx.repo
+    mod = repo.module(GATES)
+    W = "self.wrapped_gate.matrix"
+    m = mod.classes["Dagger"].methods["matrix"]
+    ctx.analysed(m)
+    r = returned_exprs(m.node)
+    ok = len(r) == 1 and norm(r[0]) in [i.replace("X", W) for i in ADJOINT_IDIOMS]
+    ctx.check(ok, rule, m.key + ":adjoint", "Dagger.matrix = conjugate transpose of the wrapped matrix", f"Dagger.matrix returns {short(r[0]) if r else None}: not the conjugate transpose of the wrapped matrix (a bare transpose or bare conjugate is wrong for complex non-symmetric gates such as RY, U3, GPi2)", m)
+    dg = mod.classes["MatrixFactoryGate"].methods["dagger"]
+    ctx.analysed(dg)
+    r = returned_exprs(dg.node)
+    ok = len(r) == 1 and norm(r[0]) in ("self if self.is_hermitian else Dagger(self)", "Dagger(self) if not self.is_hermitian else self")
+    ctx.check(ok, rule, dg.key + ":flag-trusted", "self if is_hermitian else Dagger(self)", f"MatrixFactoryGate.dagger returns {short(r[0]) if r else None}: a gate may be returned as its own dagger only under its is_hermitian flag", dg)
+    dd = mod.classes["Dagger"].methods.get("dagger")
+    if dd is not None:
+        r = returned_exprs(dd.node)
+        ctx.check(len(r) == 1 and norm(r[0]) == "self.wrapped_gate", rule, dd.key + ":involution", "Dagger(g).dagger = g", f"Dagger.dagger returns {short(r[0]) if r else None}", dd)
+    hermitian_flag_obligations(ctx, rule)
+
+
 def run(ctx):
+    check_dagger_semantics(ctx, "C07-D6 dagger-semantics")
+    ctx.floor("C07-D6", 12)
     n = check_algebra(ctx)
     check_delegation(ctx)
     check_matrices(ctx)
